@@ -733,9 +733,14 @@ func variants(d *dagT, t *node, ks *keyring, rnd *rand.Rand) []*offerT {
 	b.sv("hdr/json-whitespace-reordered", func(s *spec, f *facts) {
 		h := s.h.clone()
 		rnd.Shuffle(len(h), func(i, j int) { h[i], h[j] = h[j], h[i] })
-		s.hjson = " " + strings.Replace(strings.Replace(h.json(), ",", " ,\n\t", -1), ":", ": ", 3) + " "
+		parts := make([]string, len(h))
+		for i, m := range h {
+			parts[i] = strconv.Quote(m.k) + " :\t" + m.v
+		}
+		s.hjson = "{ " + strings.Join(parts, " ,\r\n  ") + "\n}"
 		f.benign = true
 	})
+	b.sv("hdr/json-surrounding-whitespace", func(s *spec, f *facts) { s.hjson = " " + s.h.json() + "\n"; f.unspec = "header-json-surrounded-by-whitespace" })
 
 	// -- algorithms
 	b.sv("alg/none-empty-signature", func(s *spec, f *facts) { s.h = s.h.set("alg", `"none"`); s.sigAlg = "none"; f.bad = "alg none" })
@@ -755,13 +760,13 @@ func variants(d *dagT, t *node, ks *keyring, rnd *rand.Rand) []*offerT {
 		b.sv("alg/ES256-with-P384-key", func(s *spec, f *facts) {
 			s.h = s.h.set("alg", `"ES256"`).set("jwk", ks.p384.pub)
 			s.sigAlg, s.key = "ES256", ks.p384
-			f.signer, f.bad = ks.p384, "curve does not fit ES256"
+			f.signer, f.unspec = ks.p384, "ecdsa-curve-does-not-match-alg"
 		})
 		b.sv("alg/ES384-with-P256-key", func(s *spec, f *facts) {
 			k := ks.plain[0]
 			s.h = s.h.set("alg", `"ES384"`).set("jwk", k.pub)
 			s.sigAlg, s.key = "ES384", k
-			f.signer, f.bad = k, "curve does not fit ES384"
+			f.signer, f.unspec = k, "ecdsa-curve-does-not-match-alg"
 		})
 		b.sv("alg/ES256-with-rsa-jwk", func(s *spec, f *facts) {
 			s.h = s.h.set("alg", `"ES256"`).set("jwk", ks.rsa.pub)
